@@ -34,9 +34,15 @@ def parseHex? (s : List Char) : Option Nat :=
 /-- "61.62.1f600" → chars; "-" or "" → []. -/
 def parseCps? (s : String) : Option (List Char) :=
   if s = "-" ∨ s = "" then some [] else
-  (s.splitOn ".").foldr (fun p acc => match acc, parseHex? p.toList with
-    | some l, some n => some (Char.ofNat n :: l)
-    | _, _ => none) (some [])
+  (s.splitOn ".").foldr (fun p acc =>
+    -- `hex*n` = that character n times (the scale streams keep their request lines short)
+    match p.splitOn "*" with
+    | [h, n] => match acc, parseHex? h.toList, n.toNat? with
+      | some l, some c, some k => if k > 16777216 then none else some (List.replicate k (Char.ofNat c) ++ l)
+      | _, _, _ => none
+    | _ => match acc, parseHex? p.toList with
+      | some l, some n => some (Char.ofNat n :: l)
+      | _, _ => none) (some [])
 
 def showCps (l : List Char) : String :=
   if l.isEmpty then "-" else ".".intercalate (l.map (fun c => toHex c.toNat))
